@@ -153,6 +153,11 @@ HolderValueWhy(h, E, who) ==      \* E: dense block (shape <<>> = a single value
   ELSE who \o "-result-kind"
 
 ReadWhy(X, op, a, ret) ==
+  \* a linear index one past the last position addresses nothing (neither for reading nor for writing): it is refused
+  IF op = "linear_beyond" THEN
+    (IF ret.dense.st = "ok" THEN "dense-answered-a-linear-index-outside-the-array"
+     ELSE IF ret.sparse.st = "ok" THEN "sparse-answered-a-linear-index-outside-the-array" ELSE "ok")
+  ELSE
   LET pre == CASE op = "get_region" -> ReadKeyOk(X, a.key)
                [] op = "get_subs"   -> Len(a.subs) >= 1 /\ \A k \in 1..Len(a.subs) : InShape(X.shape, a.subs[k])
                [] op = "get_linear" -> Len(a.idx) >= 1 /\ \A k \in 1..Len(a.idx) : a.idx[k] \in 0..(Size(X) - 1)
